@@ -489,4 +489,76 @@ theorem tie_find_content (data : Gen.ZipFileData) :
     · rw [add_none _ _ h1, if_pos (by omega)]
       rfl
 
+/-! ### `make_crypto_reader`: the decision -/
+
+def vvOf : Gen.AesVendorVersion → AesVendorVersion
+  | .Ae1 => .ae1 | .Ae2 => .ae2
+def vvGen : AesVendorVersion → Gen.AesVendorVersion
+  | .ae1 => .Ae1 | .ae2 => .Ae2
+def aesModeGen : AesMode → Gen.AesMode
+  | .aes128 => .Aes128 | .aes192 => .Aes192 | .aes256 => .Aes256
+def validatorGen : Validator → Gen.ZipCryptoValidator
+  | .pkzipCrc32 c => .PkzipCrc32 c
+  | .infoZipMsdosTime t => .InfoZipMsdosTime t
+
+theorem vvGen_vvOf (v : Gen.AesVendorVersion) : vvGen (vvOf v) = v := by cases v <;> rfl
+theorem aesModeGen_aesModeOf (m : Gen.AesMode) : aesModeGen (Tie.Types.aesModeOf m) = m := by cases m <;> rfl
+
+/-- the external constructors at the generated types -/
+abbrev GExt := Rs.ReadExt Gen.ZipCryptoValidator Gen.AesMode
+
+/-- What the model's decision means as a computation: nothing is read for `unsupported` / `invalidPassword` /
+`plaintext`; the ZipCrypto and AES layers are built by the (uninterpreted) external constructors from exactly the
+password, validator, mode and size the decision names, and `None` from them is `Ok(Err(InvalidPassword))`. -/
+def runChoice (ext : GExt) (reader : Rs.Take) (csize : UInt64) :
+    CryptoChoice → M (Except Rs.InvalidPassword Gen.CryptoReader)
+  | .unsupported => M.throw .unsupportedArchive
+  | .invalidPassword => pure (.error ⟨⟩)
+  | .plaintext => pure (.ok (.Plaintext reader))
+  | .zipCrypto pw v => do
+    let ok ← ext.zcValidate reader pw (validatorGen v)
+    pure (if ok then .ok (.ZipCrypto ⟨reader, pw, validatorGen v⟩) else .error ⟨⟩)
+  | .aes pw mode vv => do
+    let ok ← ext.aesValidate reader (aesModeGen mode) csize pw
+    pure (if ok then .ok (.Aes ⟨reader, aesModeGen mode, csize, pw⟩ (vvGen vv)) else .error ⟨⟩)
+
+/-- the AES info of an entry as the model states it -/
+def aesInfoOf (info : Option (Gen.AesMode × Gen.AesVendorVersion)) : Option (AesMode × AesVendorVersion) :=
+  info.map fun p => (Tie.Types.aesModeOf p.1, vvOf p.2)
+
+theorem tie_make_crypto_reader (ext : GExt) (m : Gen.CompressionMethod) (crc : UInt32) (t : Gen.DateTime)
+    (udd : Bool) (reader : Rs.Take) (pw : Option Bytes) (info : Option (Gen.AesMode × Gen.AesVendorVersion))
+    (csize : UInt64) :
+    Gen.make_crypto_reader ext m crc t udd reader pw info csize =
+      runChoice ext reader csize
+        (cryptoChoice (Tie.Types.methodOf m) crc (Tie.DateTime.toModel t) udd pw (aesInfoOf info)) := by
+  unfold Gen.make_crypto_reader
+  cases m <;> cases pw <;> rcases info with _ | ⟨mode, vv⟩ <;>
+    simp only [cryptoChoice, Tie.Types.methodOf, runChoice, aesInfoOf, Option.map] <;>
+    msimp [Gen.unsupported_zip_error, Gen.CompressionMethod.AES, beq_iff_eq, reduceCtorEq, ↓reduceIte,
+      Rs.R.zc_validate, Rs.R.aes_validate, aesModeGen_aesModeOf, vvGen_vvOf, Tie.DateTime.tie_timepart] <;>
+    (try cases udd) <;>
+    (try msimp [validatorGen, ↓reduceIte, Bool.false_eq_true]) <;>
+    (try (refine bind_congr fun ok => ?_; cases ok <;> rfl))
+
+/-- `cryptoChoice` IS the model's decision: `byIndexRead` (the function C03 / C04 / C15 / C16 speak about) is the
+same function written through it. -/
+theorem byIndexRead_eq_choice (ext : Ext) (a : Archive) (i : Nat) (password : Option Bytes) :
+    byIndexRead ext a i password = byIndexReadC ext a i password := by
+  unfold byIndexRead byIndexReadC
+  cases hf : a.files[i]? with
+  | none => rfl
+  | some data =>
+    simp only []
+    by_cases hc : (password.isNone && data.encrypted) = true
+    · rw [if_pos hc, if_pos hc]
+    · rw [if_neg hc, if_neg hc]
+      refine bind_congr fun ds => ?_
+      generalize (if data.encrypted = true then password else none) = pw
+      rcases hm : data.method with _ | _ | _ | _ | _ | v <;> cases pw <;>
+        rcases hi : data.aesMode with _ | ⟨mode, vv⟩ <;>
+        simp only [cryptoChoice] <;> (try rfl)
+      all_goals (cases hu : data.usingDataDescriptor <;> simp only [Validator.checkByte, ↓reduceIte,
+        Bool.false_eq_true] <;> rfl)
+
 end ZipVerif.Tie.ReaderGlue
